@@ -746,18 +746,27 @@ class BaseEvent(BaseModel, Generic[T_EventResultType]):
                 return False
         return True
 
-    def event_cancel_pending_child_processing(self, error: BaseException) -> None:
+    def event_cancel_pending_child_processing(self, error: BaseException, _visited: set[str] | None = None) -> None:
         """Cancel any pending child events that were dispatched during handler execution"""
         if not isinstance(error, asyncio.CancelledError):
             error = asyncio.CancelledError(
                 f'Cancelled pending handler as a result of parent error {error}'
             )  # keep the word "pending" in the error, checked by print_handler_line()
+        # the child graph may be circular (a handler re-dispatched one of its own ancestors): visit every event once,
+        # like event_are_all_children_complete() does, instead of recursing until RecursionError and leaving the rest pending
+        if _visited is None:
+            _visited = set()
+        if self.event_id in _visited:
+            return
+        _visited.add(self.event_id)
         for child_event in self.event_children:
+            if child_event.event_id in _visited:
+                continue  # reached again through a cycle (possibly the event whose handler failed: its other handlers still run)
             for result in child_event.event_results.values():
                 if result.status == 'pending':
                     # print('CANCELLING CHILD HANDLER', result, 'due to', error)
                     result.update(error=error)
-            child_event.event_cancel_pending_child_processing(error)
+            child_event.event_cancel_pending_child_processing(error, _visited)
 
     def event_log_safe_summary(self) -> dict[str, Any]:
         """only event metadata without contents, avoid potentially sensitive event contents in logs"""
